@@ -254,7 +254,7 @@ STOP_JOBS = [
     S("h_driver", drv(5, 1, n=1, cp=3, fk=2, unit=1, t0=1), ["builtin.zero_target_never"]),
     S("h_driver", drv(5, 2, n=2, cp=0, fk=2, t0=1), ["builtin.zero_target_never"]),
     S("h_driver", drv(5, 1, n=2, cp=3, fk=2, t0=1), ["builtin.zero_target_never"], tiers=T, split=8),
-    S("h_driver", drv(5, 0, n=2, cp=3, fk=2, unit=1), ["builtin.stops_iff"], tiers=T, timeout_ms=120000),
+    S("h_driver", drv(5, 0, n=2, cp=3, fk=2, unit=1), ["builtin.stops_iff"], tiers=T, split=10, timeout_ms=600000),
     S("h_driver", drv(5, 0, n=2, cp=3, fk=2), ["builtin.at_least_one"], tiers=T, timeout_ms=120000),
 ]
 PLAN["C12"] = dict(functions=DRIVER_FUNCS + ["hep::callback<Checkpoint>::operator()", "hep::weighted_with_variance", "hep::create_result"],
@@ -309,3 +309,36 @@ POISON_JOBS = [
 ]
 PLAN["C06"]["jobs"] = ITERATION_JOBS + POISON_JOBS
 PLAN["C06"]["functions"] = sorted(set(PLAN["C06"]["functions"] + DRIVER_FUNCS))
+
+HELPER_JOBS = [
+    S("h_helpers", dict(ob=0, m=0), ["weighted.counters"]),
+    S("h_helpers", dict(ob=0, m=1), ["weighted.estimate_is"]),
+    S("h_helpers", dict(ob=0, m=2), ["weighted.estimate_is"]),
+    S("h_helpers", dict(ob=0, m=3), ["weighted.estimate_is", "weighted.independent_of_the_order"]),
+    S("h_helpers", dict(ob=0, m=3, big=1), ["weighted.error_is"]),
+    S("h_helpers", dict(ob=1, m=0), ["equal.no_results"]),
+    S("h_helpers", dict(ob=1, m=1), ["equal.single_result"]),
+    S("h_helpers", dict(ob=1, m=2), ["equal.estimate_is_the_mean"]),
+    S("h_helpers", dict(ob=1, m=3), ["equal.error_is_the_standard_error"]),
+    S("h_helpers", dict(ob=1, m=3, big=1), ["equal.error_is_the_standard_error"]),
+    S("h_helpers", dict(ob=2, m=0), ["chi.zero_for_no_result"]),
+    S("h_helpers", dict(ob=2, m=1), ["chi.infinite_for_one_result"]),
+    S("h_helpers", dict(ob=2, m=2), ["chi.documented_formula"]),
+    S("h_helpers", dict(ob=2, m=3), ["chi.documented_formula"]),
+    S("h_helpers", dict(ob=3, m=2), ["distributions.same_rule"]),
+    S("h_helpers", dict(ob=4), ["create_result.variance"]),
+    S("h_helpers", dict(ob=4, big=1), ["create_result.variance"]),
+    S("h_helpers", dict(ob=0, m=4), ["weighted.independent_of_the_order"], tiers=T, timeout_ms=300000),
+    S("h_helpers", dict(ob=1, m=4), ["equal.error_is_the_standard_error"], tiers=T),
+    S("h_helpers", dict(ob=2, m=4), ["chi.documented_formula"], tiers=T, timeout_ms=300000),
+    S("h_helpers", dict(ob=3, m=3), ["distributions.same_rule"], tiers=T),
+]
+PLAN["C13"] = dict(
+    functions=["hep::weighted_with_variance", "hep::weighted_equally", "hep::chi_square_dof", "hep::hep_distribution_accumulator",
+               "hep::accumulate", "hep::create_result", "hep::mc_result<T>::value/variance/error"],
+    bounds={"quick": "0..3 results, every pattern of results without non-zero calls, estimates in [-1e6,1e6] and errors in (0,1e6] symbolic, "
+                     "call counts {2,3,5} and {2e9+..} (sums beyond 2^32), all 6 permutations; 2 results x 1 distribution x 2 bins",
+            "thorough": "0..4 results (24 permutations), 3 results with distributions"},
+    outside="more results; conditioning of (value,error)<->(sum,sumsq) in floating point (exact reals)",
+    assumptions=COMMON_ASSUME[:2], jobs=HELPER_JOBS)
+PLAN["C12"]["jobs"] = PLAN["C12"]["jobs"] + only(HELPER_JOBS, lambda j: j["cfg"]["ob"] == 0 and "quick" in j["tiers"])
